@@ -124,20 +124,53 @@ def run(ck, P):
     ck.rule("C15.5-RESERVED", "R-GUARD + constants: m_mod_ps_publish reaches send_msg only under !is_system_message(topic) (-EPERM otherwise); "
             "is_system_message compares the first strlen(prefix) bytes with a prefix that every system topic the library emits starts with", floor=3)
     pb = P.fn("m_mod_ps_publish", "Lib/core/ps.c")
-    check_guarded_entry(ck, X, pb, "C15.5-RESERVED", [(("is_system_message(topic)", False), -1)], "m_mod_ps_publish")
-    ism = P.fn("is_system_message", "Lib/core/ps.c")
-    ck.analysed(ism)
-    sc = list(ism.calls("strncmp"))
+    ism = P.fn("is_system_message", "Lib/core/ps.c", required=False)
     prefix = None
-    okp = len(sc) == 1
-    if okp:
-        a = sc[0].args
-        prefix = strip(a[1]).get("v") if strip(a[1])["k"] == "str" else None
-        ln = strip(a[2])
-        okp = prefix is not None and S(a[0]) == ism.params[0]["name"] and ((ln.get("callee") == "strlen" and strip(ln["args"][0]).get("v") == prefix) or cval(a[2]) == len(prefix))
-        rv = [e for e in ism.events() if e.kind == "ret"]
-        okp = okp and len(rv) == 1 and "strncmp" in S(rv[0].e) and "== 0" in S(rv[0].e) and S(rv[0].e).startswith("(" + ism.params[0]["name"] + " &&")
-    ck.ob("C15.5-RESERVED", ism.site("prefix test"), okp, "prefix %r compared over its full length" % prefix)
+    if ism is not None:
+        check_guarded_entry(ck, X, pb, "C15.5-RESERVED", [(("is_system_message(topic)", False), -1)], "m_mod_ps_publish")
+        ck.analysed(ism)
+        sc = list(ism.calls("strncmp"))
+        okp = len(sc) == 1
+        if okp:
+            a = sc[0].args
+            prefix = strip(a[1]).get("v") if strip(a[1])["k"] == "str" else None
+            ln = strip(a[2])
+            okp = prefix is not None and S(a[0]) == ism.params[0]["name"] and ((ln.get("callee") == "strlen" and strip(ln["args"][0]).get("v") == prefix) or cval(a[2]) == len(prefix))
+            rv = [e for e in ism.events() if e.kind == "ret"]
+            okp = okp and len(rv) == 1 and "strncmp" in S(rv[0].e) and "== 0" in S(rv[0].e) and S(rv[0].e).startswith("(" + ism.params[0]["name"] + " &&")
+        ck.ob("C15.5-RESERVED", ism.site("prefix test"), okp, "prefix %r compared over its full length" % prefix)
+    else:
+        # the predicate written out in place (macro / by hand): every path of m_mod_ps_publish to an effect has refuted
+        # `topic && strncmp(topic, PREFIX, strlen(PREFIX)) == 0`, and the refusing arm returns -EPERM
+        ck.analysed(pb)
+        tn = pb.params[1]["name"]
+        sc = [e for e in pb.calls("strncmp") if S(e.args[0]) == tn]
+        okp = len(sc) == 1
+        atom = None
+        if okp:
+            a = sc[0].args
+            prefix = strip(a[1]).get("v") if strip(a[1])["k"] == "str" else None
+            ln = strip(a[2])
+            okp = prefix is not None and ((ln.get("callee") == "strlen" and strip(ln["args"][0]).get("v") == prefix) or cval(a[2]) == len(prefix))
+            atom = S(sc[0].e)
+        ck.ob("C15.5-RESERVED", pb.site("prefix test"), okp, "prefix %r compared over its full length (predicate written out in m_mod_ps_publish)" % prefix)
+        effs = [e for e in pb.events() if X.effects().is_effect(e) and not (e.kind == "call" and e.callee in ("m_ctx", "m_mod_is", "fetch_ms", "strncmp", "strlen"))]
+        badp = None
+        np_ = 0
+        for path in pb.paths():
+            evs = list(rules.path_events(pb, path))
+            if not any(e in effs for e in evs):
+                continue
+            np_ += 1
+            asm = rules.path_assumes(path)
+            refuted = asm.get(tn) is False or (atom is not None and (
+                asm.get(atom) is True or asm.get("(%s == 0)" % atom) is False or
+                asm.get("(%s && (%s == 0))" % (tn, atom)) is False or asm.get("(%s && !%s)" % (tn, atom)) is False))
+            if not refuted:
+                badp = path
+        ck.ob("C15.5-RESERVED", pb.site("!is_system_message(topic)"), okp and badp is None and np_ > 0,
+              "%d acting path(s) of m_mod_ps_publish all refuted the reserved-prefix test" % np_ if badp is None else
+              "m_mod_ps_publish can act on a topic without having refuted the reserved prefix", path=rules.fmt_path(pb, badp) if badp else None)
     topics = set()
     for ev in P.calls_to("tell_system_pubsub_msg"):
         t = strip(ev.args[3])
